@@ -61,14 +61,18 @@ OPS = ["copy", "rename", "dedup", "fuse", "expand", "split"]
 # ---------------------------------------------------------------------------------------------- generators
 
 @st.composite
-def sub_specs(draw, need_sinks: list[str], source_names_hint: list[str]):
-    """Sub-graph: sources, processors and output-less sinks; sink names include `need_sinks`."""
+def sub_specs(draw, need_sinks: list[str], source_names_hint: list[str], prefix: str | None = None):
+    """Sub-graph: sources, processors and output-less sinks; sink names include `need_sinks`. With `prefix`, some inner names
+    start with "<expanded node's name>." -- the very prefix the splicer adds to (and strips from) inner names."""
     n_src = draw(st.integers(1, 2))
     n_proc = draw(st.integers(0, 2))
     extra_sinks = draw(st.integers(0, 1))
     name_st = st.text(alphabet=ADVERSARIAL, min_size=1, max_size=3)
     want = n_src + n_proc + extra_sinks + 2 + len(need_sinks)  # some may be filtered out below; keep enough
     pool = draw(st.lists(name_st, min_size=want, max_size=want, unique=True))
+    if prefix is not None:
+        pool = [(prefix + "." + p if draw(st.booleans()) else p) for p in pool]
+        pool = list(dict.fromkeys(pool))
     pool = [p for p in pool if p not in need_sinks]
     nodes: list[dict] = []
     for i in range(n_src):
@@ -130,8 +134,14 @@ def cases(draw):
             else:
                 k = draw(st.integers(1, max(1, len(consumed_outs)))) if consumed_outs else 0
                 need = draw(st.lists(st.text(alphabet=ADVERSARIAL, min_size=1, max_size=4), min_size=k, max_size=k, unique=True))
+                pref = None
+                if draw(st.integers(0, 3)) == 0:
+                    # inner names that already carry the expanded node's own name as a dotted prefix (once or twice), next to
+                    # inner names that are the un-prefixed remainder
+                    pref = nd["name"] if draw(st.booleans()) else nd["name"] + "." + nd["name"]
+                    need = list(dict.fromkeys((pref + "." + x if draw(st.booleans()) else x) for x in need))
                 omap = {o: draw(st.sampled_from(need)) for o in consumed_outs} if need else {}
-            sub = draw(sub_specs(need, sorted(nd["inputs"].keys())))
+            sub = draw(sub_specs(need, sorted(nd["inputs"].keys()), pref if style != "none" else None))
             srcs = [x["name"] for x in sub["nodes"] if not x["inputs"]]
             if style == "none" or not nd["inputs"] or draw(st.booleans()):
                 imap = None
